@@ -29,4 +29,254 @@ def insertZ (e : List (Nat × Nat) × PyVal) : List (List (Nat × Nat) × PyVal)
 def sortZ (l : List (List (Nat × Nat) × PyVal)) : List (List (Nat × Nat) × PyVal) :=
   l.foldl (fun acc e => insertZ e acc) []
 
+/-! ### order facts -/
+
+theorem lexLt_irrefl (a : Nat × Nat) : ¬ lexLt a a := by
+  unfold lexLt; omega
+
+theorem lexLt_trans {a b c : Nat × Nat} : lexLt a b → lexLt b c → lexLt a c := by
+  unfold lexLt; omega
+
+theorem lexLt_total (a b : Nat × Nat) : lexLt a b ∨ a = b ∨ lexLt b a := by
+  obtain ⟨a1, a2⟩ := a
+  obtain ⟨b1, b2⟩ := b
+  unfold lexLt
+  simp only [Prod.mk.injEq]
+  omega
+
+theorem minNat_mem (r : List (Nat × Nat)) (m : Nat × Nat) : minNat r m ∈ m :: r := by
+  induction r generalizing m with
+  | nil => simp [minNat]
+  | cons c r ih =>
+    simp only [minNat]
+    split
+    · rcases List.mem_cons.1 (ih c) with h | h
+      · rw [h]; simp
+      · exact List.mem_cons_of_mem _ (List.mem_cons_of_mem _ h)
+    · rcases List.mem_cons.1 (ih m) with h | h
+      · rw [h]; simp
+      · exact List.mem_cons_of_mem _ (List.mem_cons_of_mem _ h)
+
+theorem minNat_le_init (r : List (Nat × Nat)) (m : Nat × Nat) : ¬ lexLt m (minNat r m) := by
+  induction r generalizing m with
+  | nil => exact lexLt_irrefl m
+  | cons c r ih =>
+    simp only [minNat]
+    split
+    · rename_i h
+      intro h2
+      exact ih c (lexLt_trans h h2)
+    · exact ih m
+
+theorem minNat_le (r : List (Nat × Nat)) (m c : Nat × Nat) (hc : c ∈ m :: r) : ¬ lexLt c (minNat r m) := by
+  induction r generalizing m with
+  | nil =>
+    simp only [List.mem_singleton] at hc
+    subst hc; exact lexLt_irrefl c
+  | cons d r ih =>
+    simp only [minNat]
+    rcases List.mem_cons.1 hc with rfl | hc
+    · split
+      · rename_i h
+        intro h2
+        exact minNat_le_init r d (lexLt_trans h h2)
+      · exact minNat_le_init r c
+    · rcases List.mem_cons.1 hc with rfl | hc
+      · split
+        · exact minNat_le_init r c
+        · rename_i h
+          intro h2
+          have h3 := minNat_le_init r m
+          rcases lexLt_total c m with h4 | h4 | h4
+          · exact h h4
+          · subst h4; exact h3 h2
+          · exact h3 (lexLt_trans h4 h2)
+      · exact ih _ (List.mem_cons_of_mem _ hc)
+
+theorem roomMin_mem {r : List (Nat × Nat)} (hr : r ≠ []) : roomMin r ∈ r := by
+  cases r with
+  | nil => exact absurd rfl hr
+  | cons c r => exact minNat_mem r c
+
+theorem roomMin_le {r : List (Nat × Nat)} {c : Nat × Nat} (hc : c ∈ r) : ¬ lexLt c (roomMin r) := by
+  cases r with
+  | nil => simp at hc
+  | cons d r => exact minNat_le r d c hc
+
+/-! sorting -/
+theorem insertZ_perm (e : List (Nat × Nat) × PyVal) (l : List (List (Nat × Nat) × PyVal)) :
+    (insertZ e l).Perm (e :: l) := by
+  induction l with
+  | nil => simp [insertZ]
+  | cons x r ih =>
+    simp only [insertZ]
+    split
+    · exact List.Perm.refl _
+    · exact (List.Perm.cons x ih).trans (List.Perm.swap e x r)
+
+theorem foldl_insertZ_perm (l acc : List (List (Nat × Nat) × PyVal)) :
+    (l.foldl (fun acc e => insertZ e acc) acc).Perm (acc ++ l) := by
+  induction l generalizing acc with
+  | nil => simp
+  | cons e l ih =>
+    simp only [List.foldl_cons]
+    refine (ih _).trans ?_
+    refine ((insertZ_perm e acc).append_right l).trans ?_
+    simp only [List.cons_append]
+    exact List.perm_middle.symm
+
+theorem sortZ_perm (l : List (List (Nat × Nat) × PyVal)) : (sortZ l).Perm l := by
+  have := foldl_insertZ_perm l []
+  simpa [sortZ] using this
+
+theorem insertZ_sorted (e : List (Nat × Nat) × PyVal) (l : List (List (Nat × Nat) × PyVal))
+    (h : l.Pairwise fun a b => ¬ lexLt (roomMin b.1) (roomMin a.1)) :
+    (insertZ e l).Pairwise fun a b => ¬ lexLt (roomMin b.1) (roomMin a.1) := by
+  induction l with
+  | nil => simp [insertZ]
+  | cons x r ih =>
+    simp only [insertZ]
+    rw [List.pairwise_cons] at h
+    split
+    · rename_i hlt
+      rw [List.pairwise_cons]
+      refine ⟨?_, List.pairwise_cons.2 h⟩
+      intro b hb
+      rcases List.mem_cons.1 hb with rfl | hb
+      · intro h2; exact lexLt_irrefl _ (lexLt_trans hlt h2)
+      · intro h2; exact h.1 b hb (lexLt_trans h2 hlt)
+    · rename_i hlt
+      rw [List.pairwise_cons]
+      refine ⟨?_, ih h.2⟩
+      intro b hb
+      have hb' := (insertZ_perm e r).mem_iff.1 hb
+      rcases List.mem_cons.1 hb' with rfl | hb'
+      · exact hlt
+      · exact h.1 b hb'
+
+theorem foldl_insertZ_sorted (l acc : List (List (Nat × Nat) × PyVal))
+    (h : acc.Pairwise fun a b => ¬ lexLt (roomMin b.1) (roomMin a.1)) :
+    (l.foldl (fun acc e => insertZ e acc) acc).Pairwise fun a b => ¬ lexLt (roomMin b.1) (roomMin a.1) := by
+  induction l generalizing acc with
+  | nil => simpa
+  | cons e l ih => exact ih _ (insertZ_sorted e acc h)
+
+theorem sortZ_sorted (l : List (List (Nat × Nat) × PyVal)) :
+    (sortZ l).Pairwise fun a b => ¬ lexLt (roomMin b.1) (roomMin a.1) :=
+  foldl_insertZ_sorted l [] List.Pairwise.nil
+
+/-! encoder -/
+def roomPy (r : List (Nat × Nat)) : PyVal := .list (r.map cellVal)
+
+theorem roomsVal_eq (rooms : List (List (Nat × Nat))) : roomsVal rooms = .list (rooms.map roomPy) := rfl
+
+theorem pyLt_iff (c m : Nat × Nat) :
+    (((c.1 : Int) < (m.1 : Int) || ((c.1 : Int) == (m.1 : Int) && (c.2 : Int) < (m.2 : Int))) = true) ↔ lexLt c m := by
+  unfold lexLt
+  simp only [Bool.or_eq_true, Bool.and_eq_true, decide_eq_true_eq, beq_iff_eq]
+  omega
+
+theorem minCell_some (r : List (Nat × Nat)) (m : Nat × Nat) :
+    minCell (r.map cellVal) (some ((m.1 : Int), (m.2 : Int))) =
+      .ok (((minNat r m).1 : Int), ((minNat r m).2 : Int)) := by
+  induction r generalizing m with
+  | nil => simp [minCell, minNat]
+  | cons c r ih =>
+    simp only [List.map_cons, cellVal, minCell, asInt?, minNat]
+    by_cases h : lexLt c m
+    · rw [if_pos ((pyLt_iff c m).2 h), if_pos h]
+      exact ih c
+    · rw [if_neg (fun h' => h ((pyLt_iff c m).1 h')), if_neg h]
+      exact ih m
+
+theorem minCell_none (c : Nat × Nat) (r : List (Nat × Nat)) :
+    minCell ((c :: r).map cellVal) none =
+      .ok (((roomMin (c :: r)).1 : Int), ((roomMin (c :: r)).2 : Int)) := by
+  simp only [List.map_cons, cellVal, minCell, asInt?, roomMin]
+  exact minCell_some r c
+
+def trip (rv : List (Nat × Nat) × PyVal) : (Int × Int) × PyVal × PyVal :=
+  ((((roomMin rv.1).1 : Int), ((roomMin rv.1).2 : Int)), roomPy rv.1, rv.2)
+
+theorem keyedPairs_eq (rooms : List (List (Nat × Nat))) (values : List PyVal) (hne : ∀ r ∈ rooms, r ≠ []) :
+    keyedPairs (rooms.map roomPy) values = .ok ((rooms.zip values).map trip) := by
+  induction rooms generalizing values with
+  | nil => simp [keyedPairs]
+  | cons r rooms ih =>
+    cases values with
+    | nil => simp [keyedPairs]
+    | cons v values =>
+      have hr : r ≠ [] := hne r List.mem_cons_self
+      obtain ⟨c, r', rfl⟩ := List.exists_cons_of_ne_nil hr
+      simp only [List.map_cons, keyedPairs]
+      have : asSeq? (roomPy (c :: r')) = some ((c :: r').map cellVal) := rfl
+      rw [this]
+      have hm := minCell_none c r'
+      rw [List.map_cons] at hm
+      simp only [hm, Outcome.bind_ok,
+        ih values (fun r hr => hne r (List.mem_cons_of_mem _ hr)), List.zip_cons_cons, List.map_cons, trip]
+
+theorem keyLt_trip (e x : List (Nat × Nat) × PyVal) :
+    (keyLt (trip e).1 (trip x).1 = true) ↔ lexLt (roomMin e.1) (roomMin x.1) := by
+  unfold keyLt trip
+  exact pyLt_iff _ _
+
+theorem insertByKey_trip (e : List (Nat × Nat) × PyVal) (l : List (List (Nat × Nat) × PyVal)) :
+    insertByKey (trip e) (l.map trip) = (insertZ e l).map trip := by
+  induction l with
+  | nil => simp [insertByKey, insertZ]
+  | cons x r ih =>
+    simp only [List.map_cons, insertByKey, insertZ]
+    by_cases h : lexLt (roomMin e.1) (roomMin x.1)
+    · rw [if_pos ((keyLt_trip e x).2 h), if_pos h]; simp
+    · rw [if_neg (fun h' => h ((keyLt_trip e x).1 h')), if_neg h, ih]; simp
+
+theorem foldl_insertByKey_trip (l acc : List (List (Nat × Nat) × PyVal)) :
+    (l.map trip).foldl (fun acc e => insertByKey e acc) (acc.map trip) =
+      (l.foldl (fun acc e => insertZ e acc) acc).map trip := by
+  induction l generalizing acc with
+  | nil => simp
+  | cons e l ih =>
+    simp only [List.map_cons, List.foldl_cons, insertByKey_trip]
+    exact ih _
+
+theorem sortByKey_trip (l : List (List (Nat × Nat) × PyVal)) : sortByKey (l.map trip) = (sortZ l).map trip := by
+  have := foldl_insertByKey_trip l []
+  simpa [sortByKey, sortZ] using this
+
+theorem sortZ_length (l : List (List (Nat × Nat) × PyVal)) : (sortZ l).length = l.length :=
+  (sortZ_perm l).length_eq
+
+theorem tuplSer_two (f g : SerF) (a b : List PyVal) :
+    tuplSer [f, g] [.tuple [.list a, .list b]] 0 =
+      (f a 0).bind fun r1 => (g b 0).bind fun r2 => .ok (1, r1.2 ++ r2.2) := by
+  simp only [tuplSer, withItem, List.length_cons, List.length_nil, List.getElem?_cons_zero, tuplSerParts, asSeq?]
+  cases h1 : f a 0 <;> cases h2 : g b 0 <;> simp [Outcome.bind]
+
+theorem valuedRoomsSer_sorted (fv : SerF) (env : Env) (skip : Bool) (rooms : List (List (Nat × Nat))) (values : List PyVal)
+    (hne : ∀ r ∈ rooms, r ≠ []) (hl : values.length = rooms.length) (hn : rooms ≠ []) :
+    valuedRoomsSer fv env skip [.tuple [roomsVal rooms, .list values]] 0 =
+      (roomsSer env skip [roomsVal ((sortZ (rooms.zip values)).map (·.1))] 0).bind fun r1 =>
+      (seqSer fv rooms.length [.list ((sortZ (rooms.zip values)).map (·.2))] 0).bind fun r2 =>
+        .ok (1, r1.2 ++ r2.2) := by
+  have hlen : (sortZ (rooms.zip values)).length = rooms.length := by
+    rw [sortZ_length, List.length_zip, hl, Nat.min_self]
+  have hpos : 0 < rooms.length := List.length_pos_iff.2 hn
+  have hemp : ((sortZ (rooms.zip values)).map trip).isEmpty = false := by
+    cases h : sortZ (rooms.zip values) with
+    | nil => rw [h] at hlen; simp at hlen; omega
+    | cons a b => rfl
+  have hm1 : ((sortZ (rooms.zip values)).map trip).map (fun e => e.2.1) =
+      ((sortZ (rooms.zip values)).map (·.1)).map roomPy := by
+    simp [List.map_map, Function.comp_def, trip]
+  have hm2 : ((sortZ (rooms.zip values)).map trip).map (fun e => e.2.2) =
+      (sortZ (rooms.zip values)).map (·.2) := by
+    simp [List.map_map, Function.comp_def, trip]
+  simp only [valuedRoomsSer, withItem, List.length_cons, List.length_nil, List.getElem?_cons_zero]
+  simp only [asSeq?, keyedPairs_eq rooms values hne, Outcome.bind_ok, sortByKey_trip, hemp, hm1, hm2,
+    List.length_map, hlen, tuplSer_two, roomsVal_eq]
+  rw [if_neg (by omega), if_neg (by simp)]
+  cases h1 : roomsSer env skip [PyVal.list (List.map roomPy (List.map (fun x => x.fst) (sortZ (rooms.zip values))))] 0 <;>
+    cases h2 : seqSer fv rooms.length [PyVal.list (List.map (fun x => x.snd) (sortZ (rooms.zip values)))] 0 <;>
+    simp [Outcome.bind]
 end Cspuz.Ser
